@@ -119,7 +119,7 @@ def main():
         "engines": [
             {"name": "falcon-mc", "path": "/verif/harness", "serves_properties": sorted(CHECKS),
              "kind_free_text": "Rust harness linked against the real falcon-rust crate (hooks on): exhaustive input enumeration (E1/E2), deviation-bounded environment-answer exploration (E3), call-level schedule/history exploration on real threads and fresh child processes with a differential oracle (E4); reference models in harness/src/refmodel; PQClean (vendored C) as third-source oracle"},
-            {"name": "falcon-mc-shuttle", "path": "/verif/shuttle/driver", "serves_properties": ["C01", "C02", "C05", "C08", "C15"],
+            {"name": "falcon-mc-shuttle", "path": "/verif/shuttle/driver", "serves_properties": ["C01", "C02", "C04", "C05", "C08", "C10", "C15", "C16"],
              "kind_free_text": "E5: shuttle DFS over all schedules of 2-3 threads calling sign/keygen on an instrumented copy of the library sources (tools/instrument.py rewrites std::sync, std::thread, thread_local!, lazy_static!, OnceLock/LazyLock to shuttle's), differential oracle against the same calls run alone"},
         ],
         "checks": checks,
